@@ -13,6 +13,7 @@ import (
 	"runtime"
 	"sort"
 	"strconv"
+	"strings"
 	"sync"
 	"sync/atomic"
 	"syscall"
@@ -260,7 +261,15 @@ func watchdog() {
 }
 
 func Main(m *testing.M) {
-	go watchdog()
+	// the coordinator of a native fuzz run executes no scenario itself (its workers do, each with a watchdog of its own)
+	coordinator, worker := false, false
+	for _, a := range os.Args {
+		coordinator = coordinator || strings.HasPrefix(a, "-test.fuzz=")
+		worker = worker || strings.HasPrefix(a, "-test.fuzzworker")
+	}
+	if !coordinator || worker {
+		go watchdog()
+	}
 	// some shards run on one or two processors: wake-up orders that sixteen processors never produce (one P runs the
 	// goroutine readied last first), all inside the same deterministic scripts
 	if n := procs(); n > 0 {
